@@ -331,3 +331,93 @@ Proof. exact necessary_hypotheses_satisfiable. Qed.
 
 Example C05_haissinski_hypotheses : forall q : R, is_derive (fun q => (q * q / 2)%R) q q.
 Proof. exact example_antiderivative. Qed.
+
+(** ** (family stfp) the axes main() builds, and where the square-cell convention enters the force law
+
+    The force law above is stated in CELLS: [RFKickMap::_calcKick] moves position row [x] by [t * (xcenter - x)]
+    ENERGY cells, [t = tan(angle)], [xcenter] the zero bin of the POSITION axis.  In natural units this is the focusing
+    force [- t * q(x)] of the Haissinski equation only if the two mesh widths are equal
+    ([C05_rf_kick_natural_units]: for any pair of axes it is [- t * (delta_E/delta_q) * q(x)]).  The map itself never
+    looks at the energy axis; that the cells are square is a property of the axis extents main() hands to the
+    PhaseSpace constructor (and to makePSFromHDF5 / makePSFromTXT), read from the source on every run into
+    [Gen/Gen_Scaling.v] ([gen_qmin], [gen_qmax], [gen_pmin], [gen_pmax], [gen_axis_steps]) and pushed through the axis
+    arithmetic of [Ruler] ([Gen/Gen_Ruler.v]).  Stated over every field, for every pair of grid shifts
+    (PhaseSpaceShiftX, PhaseSpaceShiftY), grid size and PhaseSpaceSize, and every interpretation of the abstract
+    operations.  (Seed C05-G: [pmax = qmin + pqsize] makes [gen_pmax] mention ShiftX; the first theorem then fails.) *)
+From Inovesa Require Import Model.ScalingOps Gen.Gen_Scaling Gen.Gen_Ruler Proofs.ScalingAxesP.
+
+(** both axes span PhaseSpaceSize whatever the shifts: equal widths *)
+Theorem C05_main_axes_equal_width :
+  forall (K : Fld) (O : Ops K) (L : leaf -> K) (B : bleaf -> bool),
+    fsub (gen_axis_steps K O L B) f1 <> f0 ->
+    fsub (gen_pmax K O L B) (gen_pmin K O L B) = fsub (gen_qmax K O L B) (gen_qmin K O L B).
+Proof. exact axes_equal_width. Qed.
+Print Assumptions C05_main_axes_equal_width.
+
+Theorem C05_main_axes_span_PhaseSpaceSize :
+  forall (K : Fld) (O : Ops K) (L : leaf -> K) (B : bleaf -> bool),
+    fsub (gen_axis_steps K O L B) f1 <> f0 ->
+    fsub (gen_qmax K O L B) (gen_qmin K O L B) = L O_getPhaseSpaceSize /\
+    fsub (gen_pmax K O L B) (gen_pmin K O L B) = L O_getPhaseSpaceSize.
+Proof. exact axes_span. Qed.
+Print Assumptions C05_main_axes_span_PhaseSpaceSize.
+
+(** the mesh widths Ruler computes from them are equal (square cells), namely PhaseSpaceSize/(GridSize-1) *)
+Theorem C05_main_cells_square :
+  forall (K : Fld) (O : Ops K) (L : leaf -> K) (B : bleaf -> bool),
+    let n := gen_axis_steps K O L B in
+    fsub n f1 <> f0 ->
+    gen_ruler_delta K n (gen_pmin K O L B) (gen_pmax K O L B) = gen_ruler_delta K n (gen_qmin K O L B) (gen_qmax K O L B) /\
+    gen_ruler_delta K n (gen_qmin K O L B) (gen_qmax K O L B) = fdiv (L O_getPhaseSpaceSize) (fsub n f1) /\
+    n = L O_getGridSize.
+Proof.
+  exact (fun K O L B Hn => conj (cells_square K O L B Hn) (conj (cell_width K O L B Hn) (axis_steps_is_gridsize K O L B))).
+Qed.
+Print Assumptions C05_main_cells_square.
+
+(** the zero bin of each axis is the centre of the grid plus the axis' OWN shift *)
+Theorem C05_main_zero_bins :
+  forall (K : Fld) (O : Ops K) (L : leaf -> K) (B : bleaf -> bool),
+    let n := gen_axis_steps K O L B in
+    fsub n f1 <> f0 -> L O_getPhaseSpaceSize <> f0 ->
+    gen_ruler_zerobin K n (gen_qmin K O L B) (gen_qmax K O L B) = fadd (fdiv (fsub n f1) two) (L O_getPSShiftX) /\
+    gen_ruler_zerobin K n (gen_pmin K O L B) (gen_pmax K O L B) = fadd (fdiv (fsub n f1) two) (L O_getPSShiftY).
+Proof.
+  exact (fun K O L B Hn HP => conj (zerobin_position K O L B Hn HP) (zerobin_energy K O L B Hn HP)).
+Qed.
+Print Assumptions C05_main_zero_bins.
+
+(** the RF kick of row [x], [t * (xcenter - x)] energy cells, in natural units for ANY two axes of [s] points:
+    [- t * (delta_E/delta_q) * q(x)] - here the square-cell assumption is explicit *)
+Theorem C05_rf_kick_natural_units :
+  forall (K : Fld) (s qmn qmx pmn pmx t x : K),
+    fsub s f1 <> f0 -> fsub qmn qmx <> f0 ->
+    let dq := gen_ruler_delta K s qmn qmx in
+    let dE := gen_ruler_delta K s pmn pmx in
+    let xc := gen_ruler_zerobin K s qmn qmx in
+    fmul dE (fmul t (fsub xc x)) = fopp (fmul (fmul t (fdiv dE dq)) (gen_ruler_at K qmn dq x)).
+Proof. exact rf_kick_natural_units. Qed.
+Print Assumptions C05_rf_kick_natural_units.
+
+(** ... and for the axes main() builds it IS the focusing force [- t * q(x)] of the force law, for every shift pair *)
+Theorem C05_rf_kick_natural_units_main :
+  forall (K : Fld) (O : Ops K) (L : leaf -> K) (B : bleaf -> bool) (t x : K),
+    let n := gen_axis_steps K O L B in
+    let dq := gen_ruler_delta K n (gen_qmin K O L B) (gen_qmax K O L B) in
+    let dE := gen_ruler_delta K n (gen_pmin K O L B) (gen_pmax K O L B) in
+    let xc := gen_ruler_zerobin K n (gen_qmin K O L B) (gen_qmax K O L B) in
+    fsub n f1 <> f0 -> L O_getPhaseSpaceSize <> f0 ->
+    fmul dE (fmul t (fsub xc x)) = fopp (fmul t (gen_ruler_at K (gen_qmin K O L B) dq x)).
+Proof. exact rf_kick_natural_units_main. Qed.
+Print Assumptions C05_rf_kick_natural_units_main.
+
+(** the hypotheses are satisfiable and the statements not vacuous: 65 points, PhaseSpaceSize 12, shifts -10 / +6 over Qc *)
+Example C05_main_axes_instance :
+  let L := fun l : leaf => match l with O_getGridSize => Qcz 65 | O_getPhaseSpaceSize => Qcz 12
+                                      | O_getPSShiftX => Qcz (-10) | O_getPSShiftY => Qcz 6 | _ => Qcz 1 end in
+  let B := fun _ : bleaf => false in
+  (gen_axis_steps QcF QcOps L B - 1 <> 0)%Qc /\
+  gen_ruler_zerobin QcF (Qcz 65) (gen_qmin QcF QcOps L B) (gen_qmax QcF QcOps L B) = Qcz 22 /\
+  gen_ruler_zerobin QcF (Qcz 65) (gen_pmin QcF QcOps L B) (gen_pmax QcF QcOps L B) = Qcz 38 /\
+  gen_ruler_delta QcF (Qcz 65) (gen_pmin QcF QcOps L B) (gen_pmax QcF QcOps L B) = Q2Qc (3 # 16).
+Proof. exact main_axes_instance. Qed.
